@@ -200,11 +200,21 @@ def option_table() -> tuple[list[dict[str, Any]], dict[str, Any]]:
             places.append(("cli", {}, {"cli": [flag_for[name][not dv]]}))
         if name in PER_MODULE_OPTIONS:
             places.append(("permod", {"permod": "%s = %s" % (name, dv)}, {"permod": "%s = %s" % (name, not dv)}))
+        if name in PER_MODULE_OPTIONS:
+            # the global value toggles while a [mypy-b] section pins the same option for b
+            places.append(("ini+pinned-b", {"ini": "%s = %s" % (name, dv), "permod": "%s = %s" % (name, dv)},
+                           {"ini": "%s = %s" % (name, not dv), "permod": "%s = %s" % (name, dv)}))
         for place, A, B in places:
             table.append({"opt": name, "place": place, "A": A, "B": B, "idx": 0})
     for name, pairs in VALUED.items():
         for i, (A, B) in enumerate(pairs):
             table.append({"opt": name, "place": "cli" if "cli" in B else "ini", "A": A, "B": B, "idx": i})
+            if name in ("enable_error_code", "disable_error_code", "always_true", "always_false"):
+                # the same change while a [mypy-b] section gives b its OWN value of that option (a list option: the
+                # section's list replaces the global one, the derived per-module sets merge both)
+                own = {"enable_error_code": "enable_error_code = unused-awaitable", "disable_error_code": "disable_error_code = no-redef",
+                       "always_true": "always_true = OTHER", "always_false": "always_false = OTHER"}[name]
+                table.append({"opt": name, "place": "cli+own-section-b", "A": dict(A, permod=own), "B": dict(B, permod=own), "idx": i})
     info = {"in_key": sorted(OPTIONS_AFFECTING_CACHE), "per_module": sorted(PER_MODULE_OPTIONS),
             "bool_options": sorted({t["opt"] for t in table if t["opt"] not in VALUED}), "flags": len(flag_for)}
     return table, info
